@@ -74,6 +74,9 @@ func (k *Keeper) UpdateVotingPower(ctx sdk.Context, avsAddr string) error {
 			optedUSDValues.ActiveUSDValue = stakingInfo.Staking
 			avsVotingPower = avsVotingPower.Add(optedUSDValues.TotalUSDValue)
 		}
+		if err := verifFail("operator.UpdateVotingPower.afterOperator"); err != nil {
+			return err
+		}
 		return nil
 	}
 
